@@ -48,8 +48,27 @@ def named_in_rules():
     return _NAMED
 
 
+_FORCE = set()
+
+
+def expanded_view(prog, body, force):
+    """`body` with the private helpers named in `force` ('Type::method') written out in place too — for a rule
+    whose subject may have been split over sibling helpers that it otherwise treats as units of their own"""
+    global _FORCE
+    from mir import Body
+    old = _FORCE
+    _FORCE = set(force)
+    try:
+        rec = inline_rec(prog, body.rec, {}, frozenset())
+    finally:
+        _FORCE = old
+    return Body(rec, prog) if rec is not None else body
+
+
 def _is_named(name):
     parts = strip_generics(name).split("::")
+    if "::".join(parts[-2:]) in _FORCE:
+        return False
     named = named_in_rules()
     if "::".join(parts[-2:]) in named:
         return True
@@ -70,7 +89,7 @@ def inlinable(prog, cb):
     out = sig.get("output", "")
     if out.startswith("impl ") or "dyn " in out:
         return False
-    if any(x.coroutine for x in prog.families.get(cb.root, [])):
+    if cb.coroutine:
         return False
     if len(cb.blocks) > MAX_BLOCKS or _is_named(cb.name):
         return False
@@ -78,9 +97,6 @@ def inlinable(prog, cb):
 
 
 def _caller_ok(b):
-    n = b.name
-    if n.startswith("net::frame::") or "LogReader::" in n:
-        return False
     return True
 
 
@@ -172,7 +188,7 @@ def _retarget(t, old, new):
         t["real"] = r(t["real"])
 
 
-def _result_kind_of_block(blk):
+def _result_kind_of_block(blk, rec=None):
     """'Ok' / 'Err' / '?' when the block (re)defines the whole return place, else None"""
     kind = None
     for st in blk["stmts"]:
@@ -190,6 +206,16 @@ def _result_kind_of_block(blk):
                             rv2 = st2["rv"]
                             if rv2["k"] == "agg" and rv2.get("ak") == "adt" and rv2.get("adt", "").split("<")[0] in ("std::option::Option", "core::option::Option") and rv2.get("variant") in ("None", "Some"):
                                 kind = "Ok:" + rv2["variant"]
+                    if kind == "Ok" and rec is not None:
+                        # … or built once, in an earlier block
+                        rv2 = _single_def(rec, x)
+                        if rv2 is not None and rv2["k"] == "agg" and rv2.get("ak") == "adt" and rv2.get("adt", "").split("<")[0] in ("std::option::Option", "core::option::Option") and rv2.get("variant") in ("None", "Some"):
+                            kind = "Ok:" + rv2["variant"]
+            elif rv["k"] == "agg" and rv.get("ak") == "adt" and rv.get("adt", "").split("<")[0] in ("std::option::Option", "core::option::Option") and rv.get("variant") in ("None", "Some"):
+                kind = "Opt:" + rv["variant"]
+            elif rv["k"] == "use" and st.get("ret_kind"):
+                # the result of a helper that was written out here, handed on as this function's own result
+                kind = st["ret_kind"]
             else:
                 kind = "?"
     t = blk["term"]
@@ -207,7 +233,7 @@ def split_returns(crec):
     for i, blk in enumerate(blocks):
         if blk["cleanup"]:
             continue
-        k = _result_kind_of_block(blk)
+        k = _result_kind_of_block(blk, crec)
         if k is not None:
             sites[i] = k
     if len(sites) < 2:
@@ -384,10 +410,14 @@ def _thread_chain(rec, start, P, S, kind, known=None, max_steps=40, no_calls=Fal
     P, S, CF, D = set(P), set(S), set(), {}
     S2 = set()
     B = dict(known or {})  # local -> "0"/"1": a bool whose value is known on this path
+    PB = {}  # local holding Poll::Ready(<known bool>) -> value
     cur, first, prev = start, None, None
     main, sub = (kind.split(":") + [None])[:2] if kind else (None, None)
     want = None if main not in ("Ok", "Err") else ("0" if main == "Ok" else "1")
     want2 = {"None": "0", "Some": "1"}.get(sub)
+    if main == "Opt":
+        # the helper returned an Option literal: the local itself is the decided Option
+        S2, S = set(S), set()
     decided_any = False
     for _step in range(max_steps):
         nb = copy.deepcopy(blocks[cur])
@@ -412,20 +442,34 @@ def _thread_chain(rec, start, P, S, kind, known=None, max_steps=40, no_calls=Fal
             if rv["k"] == "use" and rv["op"].get("k") == "const" and rv["op"].get("ty") == "bool" and rv["op"].get("int") in ("0", "1"):
                 B[tl] = rv["op"]["int"]
                 continue
+            if rv["k"] == "agg" and rv.get("ak") == "adt" and rv.get("adt", "").split("<")[0] == "std::task::Poll" and rv.get("variant") == "Ready" and rv.get("ops") and rv["ops"][0].get("k") in ("move", "copy") and not rv["ops"][0]["pl"]["p"] and rv["ops"][0]["pl"]["l"] in B:
+                PB[tl] = B[rv["ops"][0]["pl"]["l"]]
+                continue
+            if rv["k"] == "use" and rv["op"].get("k") in ("move", "copy") and rv["op"]["pl"]["l"] in PB and len(rv["op"]["pl"]["p"]) == 2 and rv["op"]["pl"]["p"][0][0] == "dc" and rv["op"]["pl"]["p"][0][1] == "Ready":
+                B[tl] = PB[rv["op"]["pl"]["l"]]
+                continue
             B.pop(tl, None)
+            PB.pop(tl, None)
             if rv["k"] == "use" and rv["op"].get("k") in ("move", "copy"):
                 src = rv["op"]["pl"]
                 if not src["p"] and src["l"] in S:
                     S.add(st["pl"]["l"])
+                    if st["pl"]["l"] == 0 and kind and main != "Opt":
+                        st["ret_kind"] = kind
                 elif not src["p"] and src["l"] in S2:
                     S2.add(st["pl"]["l"])
                 elif src["l"] in P and len(src["p"]) == 2 and src["p"][0][0] == "dc" and src["p"][0][1] == "Ready":
                     S.add(st["pl"]["l"])
+                    if st["pl"]["l"] == 0 and kind:
+                        # the awaited helper's result is this function's own result
+                        st["ret_kind"] = kind
                 elif want2 is not None and len(src["p"]) == 2 and src["p"][0][0] == "dc" and ((src["l"] in CF and src["p"][0][1] == "Continue") or (src["l"] in S and src["p"][0][1] == "Ok")):
                     S2.add(st["pl"]["l"])
             elif rv["k"] == "discr" and not rv["pl"]["p"]:
                 z = rv["pl"]["l"]
-                if z in P:
+                if z in PB:
+                    D[st["pl"]["l"]] = ("0", False)
+                elif z in P:
                     D[st["pl"]["l"]] = ("0", False)
                 elif want is not None and (z in S or z in CF):
                     D[st["pl"]["l"]] = (want, want2 is None)
@@ -450,6 +494,7 @@ def _thread_chain(rec, start, P, S, kind, known=None, max_steps=40, no_calls=Fal
             arm = [bb for vv, bb in t["targets"] if vv == v]
             arm = arm[0] if arm else t["otherwise"]
             nb["term"] = {"k": "goto", "t": arm, "span": t.get("span"), "exp": t.get("exp", ""), "threaded": kind or "Ready"}
+            decided_any = True
             if want is None:
                 break
             if final:
@@ -515,9 +560,45 @@ def thread_const_flags(rec):
         nxt = _succ_idx(t)
         if len(nxt) != 1 or nxt[0] >= n0:
             continue
-        first = _thread_chain(rec, nxt[0], set(), set(), None, known=known, max_steps=8, no_calls=True)
+        first = _thread_chain(rec, nxt[0], set(), set(), None, known=known, max_steps=24, no_calls=True)
         if first is not None:
             _retarget(t, nxt[0], first)
+            changed = True
+    return changed
+
+
+def thread_known_variants(rec):
+    """a block that builds `Some(..)` / `None` / `Ok(..)` / `Err(..)` into a local and runs, through a few
+    straight-line blocks without calls, into the test of that local's variant (what a written-out `opt.map(f)`
+    followed by a written-out `.transpose()` looks like) jumps to the decided arm through its own copy"""
+    blocks = rec["blocks"]
+    changed = False
+    n0 = len(blocks)
+    for bi in range(n0):
+        blk = blocks[bi]
+        t = blk["term"]
+        if not t or t["k"] != "goto" or blk["cleanup"] or not isinstance(t["t"], int) or t["t"] >= n0:
+            continue
+        last = None
+        for st in blk["stmts"]:
+            if st["k"] != "assign":
+                continue
+            if not st["pl"]["p"]:
+                rv = st["rv"]
+                head = rv.get("adt", "").split("<")[0] if rv["k"] == "agg" and rv.get("ak") == "adt" else None
+                if head in ("std::option::Option", "core::option::Option") and rv.get("variant") in ("Some", "None"):
+                    last = (st["pl"]["l"], "Opt:" + rv["variant"])
+                elif head in ("std::result::Result", "core::result::Result") and rv.get("variant") in ("Ok", "Err"):
+                    last = (st["pl"]["l"], rv["variant"])
+                elif last and st["pl"]["l"] == last[0]:
+                    last = None
+            elif last and st["pl"]["l"] == last[0]:
+                last = None
+        if not last or last[0] == 0:
+            continue
+        first = _thread_chain(rec, t["t"], set(), {last[0]}, last[1], known={}, max_steps=12, no_calls=True)
+        if first is not None:
+            _retarget(t, t["t"], first)
             changed = True
     return changed
 
@@ -594,20 +675,68 @@ def _ctor_of(prog, op):
     return None
 
 
-def _closure_def_of(rec, op):
-    """path of the closure body when the operand is a local assigned once, from a closure literal"""
-    if op.get("k") not in ("move", "copy") or op["pl"]["p"]:
-        return None
-    l = op["pl"]["l"]
-    found = None
-    n = 0
+def _single_def(rec, l):
+    found, n = None, 0
     for blk in rec["blocks"]:
         for st in blk["stmts"]:
             if st["k"] == "assign" and st["pl"]["l"] == l and not st["pl"]["p"]:
                 n += 1
-                if st["rv"]["k"] == "agg" and st["rv"].get("ak") == "closure":
-                    found = st["rv"].get("def")
+                found = st["rv"]
+        t = blk["term"]
+        if t and t["k"] == "call" and t["dest"]["l"] == l and not t["dest"]["p"]:
+            n += 1
+            found = None
     return found if n == 1 else None
+
+
+def _closure_def_of(rec, op, hops=0):
+    """path of the closure body when the operand is (a copy / a reference / a parameter alias of) a
+    local assigned once, from a closure literal"""
+    if hops > 8 or op.get("k") not in ("move", "copy"):
+        return None
+    if op["pl"]["p"] and op["pl"]["p"] != [["d"]]:
+        return None
+    rv = _single_def(rec, op["pl"]["l"])
+    if rv is None:
+        return None
+    if rv["k"] == "agg" and rv.get("ak") == "closure":
+        return rv.get("def")
+    if rv["k"] == "use":
+        return _closure_def_of(rec, rv["op"], hops + 1)
+    if rv["k"] == "ref" and not rv["pl"]["p"]:
+        return _closure_def_of(rec, {"k": "copy", "pl": rv["pl"]}, hops + 1)
+    return None
+
+
+def devirtualise_closure_calls(prog, rec):
+    """`op(reader)` where `op` is a closure parameter of a helper that was copied into the function
+    that wrote the closure literal: the call is the closure's body, copied in place"""
+    changed = False
+    blocks = rec["blocks"]
+    for bi in range(len(blocks)):
+        t = blocks[bi]["term"]
+        if not t or t["k"] != "call" or t["t"] is None or len(t["args"]) != 2:
+            continue
+        cn = strip_generics(t.get("callee") or "")
+        if cn not in ("std::ops::FnOnce::call_once", "std::ops::FnMut::call_mut", "std::ops::Fn::call"):
+            continue
+        kdef = _closure_def_of(rec, t["args"][0])
+        kb = prog.bodies.get(kdef) if kdef else None
+        if kb is None or kb.coroutine or len(kb.blocks) > 300 or kb.path == rec["path"]:
+            continue
+        tup = t["args"][1]
+        if tup.get("k") not in ("move", "copy") or tup["pl"]["p"]:
+            continue
+        trv = _single_def(rec, tup["pl"]["l"])
+        if trv is None or trv["k"] != "agg" or trv.get("ak") != "tuple" or len(trv["ops"]) != kb.arg_count - 1:
+            continue
+        sp, ex, cl = t.get("span"), t.get("exp", ""), blocks[bi]["cleanup"]
+        dest = copy.deepcopy(t["dest"])
+        on_ret = lambda l0, dest=dest: [{"k": "assign", "pl": copy.deepcopy(dest), "rv": {"k": "use", "op": {"k": "move", "pl": {"l": l0, "p": []}}}, "span": sp, "exp": ex}]
+        entry = _splice_closure(prog, rec, _closure_rec(prog, kb), t["args"][0], [copy.deepcopy(o) for o in trv["ops"]], t["t"], t["unwind"], cl, sp, ex, on_ret)
+        blocks[bi]["term"] = {"k": "goto", "t": entry, "span": sp, "exp": ex, "devirtualised": kdef}
+        changed = True
+    return changed
 
 
 def _closure_rec(prog, kb, _depth=[0]):
@@ -707,12 +836,40 @@ def desugar_combinators(prog, rec):
             blocks[bi]["term"] = {"k": "switch", "op": dict(copy.deepcopy(cond), k="copy"), "ty": "bool", "targets": [["0", n_none]], "otherwise": n_some, "span": sp, "exp": ex, "desugared": cn}
             changed = True
             continue
+        if cn == "std::option::Option::transpose" and len(t["args"]) == 1 and t["args"][0].get("k") in ("move", "copy") and not t["args"][0]["pl"]["p"]:
+            # None => Ok(None), Some(Ok(v)) => Ok(Some(v)), Some(Err(e)) => Err(e) (library source of Option::transpose)
+            xl = t["args"][0]["pl"]["l"]
+            sp, ex, cl = t.get("span"), t.get("exp", ""), blocks[bi]["cleanup"]
+            dest = copy.deepcopy(t["dest"])
+            d1, d2, ol, ol2 = len(rec["locals"]), len(rec["locals"]) + 1, len(rec["locals"]) + 2, len(rec["locals"]) + 3
+            rec["locals"].extend([{"ty": "isize", "ty_def": None, "user": False}, {"ty": "isize", "ty_def": None, "user": False}, {"ty": "std::option::Option<_>", "ty_def": None, "user": False}, {"ty": "std::option::Option<_>", "ty_def": None, "user": False}])
+            inner = [["dc", "Some", 1], ["f", 0, "0"]]
+            mk = lambda stmts: {"cleanup": cl, "stmts": stmts, "term": {"k": "goto", "t": t["t"], "span": sp, "exp": ex}}
+            asg = lambda pl, rv: {"k": "assign", "pl": pl, "rv": rv, "span": sp, "exp": ex}
+            opt = lambda var, ops: {"k": "agg", "ak": "adt", "adt": "std::option::Option", "variant": var, "fields": ["0"] if ops else [], "ops": ops}
+            res = lambda var, op: {"k": "agg", "ak": "adt", "adt": "std::result::Result", "variant": var, "fields": ["0"], "ops": [op]}
+            n_none = len(blocks)
+            blocks.append(mk([asg({"l": ol, "p": []}, opt("None", [])), asg(copy.deepcopy(dest), res("Ok", {"k": "move", "pl": {"l": ol, "p": []}}))]))
+            n_ok = len(blocks)
+            blocks.append(mk([asg({"l": ol2, "p": []}, opt("Some", [{"k": "move", "pl": {"l": xl, "p": inner + [["dc", "Ok", 0], ["f", 0, "0"]]}}])), asg(copy.deepcopy(dest), res("Ok", {"k": "move", "pl": {"l": ol2, "p": []}}))]))
+            n_err = len(blocks)
+            blocks.append(mk([asg(copy.deepcopy(dest), res("Err", {"k": "move", "pl": {"l": xl, "p": inner + [["dc", "Err", 1], ["f", 0, "0"]]}}))]))
+            n_some = len(blocks)
+            blocks.append({"cleanup": cl, "stmts": [asg({"l": d2, "p": []}, {"k": "discr", "pl": {"l": xl, "p": copy.deepcopy(inner)}, "adt": "std::result::Result", "variants": [["0", "Ok"], ["1", "Err"]]})],
+                           "term": {"k": "switch", "op": {"k": "move", "pl": {"l": d2, "p": []}}, "ty": "isize", "targets": [["0", n_ok], ["1", n_err]], "otherwise": n_err, "span": sp, "exp": ex, "desugared": cn}})
+            blocks[bi]["stmts"].append(asg({"l": d1, "p": []}, {"k": "discr", "pl": {"l": xl, "p": []}, "adt": "std::option::Option", "variants": [["0", "None"], ["1", "Some"]]}))
+            blocks[bi]["term"] = {"k": "switch", "op": {"k": "move", "pl": {"l": d1, "p": []}}, "ty": "isize", "targets": [["0", n_none], ["1", n_some]], "otherwise": n_none, "span": sp, "exp": ex, "desugared": cn}
+            changed = True
+            continue
         if cn == "std::result::Result::map" and len(t["args"]) == 2:
             # Ok(v) => Ok(f(v)), Err(e) => Err(e) (library source of Result::map), f a closure literal
             x, f = t["args"]
-            kdef = _closure_def_of(rec, f)
+            ctor_r = _ctor_of(prog, f)
+            kdef = None if ctor_r else _closure_def_of(rec, f)
             kb = prog.bodies.get(kdef) if kdef else None
-            if kb is None or kb.coroutine or kb.arg_count != 2 or len(kb.blocks) > 200 or kb.path == rec["path"] or x.get("k") not in ("move", "copy") or x["pl"]["p"]:
+            if x.get("k") not in ("move", "copy") or x["pl"]["p"]:
+                continue
+            if ctor_r is None and (kb is None or kb.coroutine or kb.arg_count != 2 or len(kb.blocks) > 200 or kb.path == rec["path"]):
                 continue
             xl = x["pl"]["l"]
             sp, ex, cl = t.get("span"), t.get("exp", ""), blocks[bi]["cleanup"]
@@ -722,7 +879,15 @@ def desugar_combinators(prog, rec):
             n_err = len(blocks)
             blocks.append({"cleanup": cl, "stmts": [{"k": "assign", "pl": copy.deepcopy(dest), "rv": {"k": "agg", "ak": "adt", "adt": "std::result::Result", "variant": "Err", "fields": ["0"], "ops": [{"k": "move", "pl": {"l": xl, "p": [["dc", "Err", 1], ["f", 0, "0"]]}}]}, "span": sp, "exp": ex}], "term": {"k": "goto", "t": t["t"], "span": sp, "exp": ex}})
             on_ret = lambda l0, dest=dest: [{"k": "assign", "pl": copy.deepcopy(dest), "rv": {"k": "agg", "ak": "adt", "adt": "std::result::Result", "variant": "Ok", "fields": ["0"], "ops": [{"k": "move", "pl": {"l": l0, "p": []}}]}, "span": sp, "exp": ex}]
-            n_ok = _splice_closure(prog, rec, _closure_rec(prog, kb), f, [{"k": "move", "pl": {"l": xl, "p": [["dc", "Ok", 0], ["f", 0, "0"]]}}], t["t"], t["unwind"], cl, sp, ex, on_ret)
+            if ctor_r is not None:
+                il = len(rec["locals"])
+                rec["locals"].append({"ty": ctor_r[0], "ty_def": None, "user": False})
+                n_ok = len(blocks)
+                blocks.append({"cleanup": cl, "stmts": [
+                    {"k": "assign", "pl": {"l": il, "p": []}, "rv": {"k": "agg", "ak": "adt", "adt": ctor_r[0], "variant": ctor_r[1], "fields": ["0"], "ops": [{"k": "move", "pl": {"l": xl, "p": [["dc", "Ok", 0], ["f", 0, "0"]]}}]}, "span": sp, "exp": ex},
+                ] + on_ret(il), "term": {"k": "goto", "t": t["t"], "span": sp, "exp": ex}})
+            else:
+                n_ok = _splice_closure(prog, rec, _closure_rec(prog, kb), f, [{"k": "move", "pl": {"l": xl, "p": [["dc", "Ok", 0], ["f", 0, "0"]]}}], t["t"], t["unwind"], cl, sp, ex, on_ret)
             blocks[bi]["stmts"].append({"k": "assign", "pl": {"l": dl, "p": []}, "rv": {"k": "discr", "pl": {"l": xl, "p": []}, "adt": "std::result::Result", "variants": [["0", "Ok"], ["1", "Err"]]}, "span": sp, "exp": ex})
             blocks[bi]["term"] = {"k": "switch", "op": {"k": "move", "pl": {"l": dl, "p": []}}, "ty": "isize", "targets": [["0", n_ok], ["1", n_err]], "otherwise": n_err, "span": sp, "exp": ex, "desugared": cn}
             changed = True
@@ -737,9 +902,10 @@ def desugar_combinators(prog, rec):
         if x.get("k") not in ("move", "copy") or x["pl"]["p"]:
             continue
         ctor = _ctor_of(prog, f)
-        kdef = None if ctor else _closure_def_of(rec, f)
+        fnitem = f if (ctor is None and f.get("k") == "const" and f.get("fn") and dflt is None) else None
+        kdef = None if (ctor or fnitem) else _closure_def_of(rec, f)
         kb = prog.bodies.get(kdef) if kdef else None
-        if ctor is None and (kb is None or kb.coroutine or kb.arg_count != 2 or len(kb.blocks) > 200 or kb.path == rec["path"]):
+        if ctor is None and fnitem is None and (kb is None or kb.coroutine or kb.arg_count != 2 or len(kb.blocks) > 200 or kb.path == rec["path"]):
             continue
         xl = x["pl"]["l"]
         dl = len(rec["locals"])
@@ -766,6 +932,18 @@ def desugar_combinators(prog, rec):
                 ]
             n_some = len(blocks)
             blocks.append({"cleanup": cl, "stmts": st_some, "term": {"k": "goto", "t": t["t"], "span": sp, "exp": ex}})
+        elif fnitem is not None:
+            # Some(v) => Some(function(v)): an ordinary call of the named function
+            il = len(rec["locals"])
+            rty = (t.get("callee_args") or ["", ""])[1] if len(t.get("callee_args") or []) > 1 else ""
+            rec["locals"].append({"ty": rty, "ty_def": None, "user": False})
+            n_wrap = len(blocks)
+            blocks.append({"cleanup": cl, "stmts": [{"k": "assign", "pl": copy.deepcopy(t["dest"]), "rv": {"k": "agg", "ak": "adt", "adt": "std::option::Option", "variant": "Some", "fields": ["0"], "ops": [{"k": "move", "pl": {"l": il, "p": []}}]}, "span": sp, "exp": ex}], "term": {"k": "goto", "t": t["t"], "span": sp, "exp": ex}})
+            ct = _call_term(fnitem["fn"], [payload], {"l": il, "p": []}, n_wrap, t["unwind"], sp, ex, dest_ty=rty)
+            ct["resolved"] = fnitem.get("v")
+            ct["callee_args"] = list(fnitem.get("fn_args") or [])
+            n_some = len(blocks)
+            blocks.append({"cleanup": cl, "stmts": [], "term": ct})
         else:
             dest = copy.deepcopy(t["dest"])
             if dflt is not None:
@@ -951,6 +1129,8 @@ def inline_rec(prog, rec, done, stack):
     """rec with every inlinable call replaced by the callee's (already inlined) blocks"""
     rec = copy.deepcopy(rec)
     changed = desugar_combinators(prog, rec)
+    if changed:
+        thread_known_variants(rec)
     changed = desugar_internal_iteration(prog, rec) or changed
     changed = thread_const_flags(rec) or changed
     bi = 0
@@ -997,7 +1177,7 @@ def inline_rec(prog, rec, done, stack):
             if ct is not None:
                 ct2 = _shift_term(_remap(ct, lmap, poff), boff, unwind_to)
                 if ct2["k"] == "return":
-                    nb["stmts"].append({"k": "assign", "pl": copy.deepcopy(t["dest"]), "rv": {"k": "use", "op": {"k": "move", "pl": {"l": lmap(0), "p": []}}}, "span": t.get("span"), "exp": t.get("exp", "")})
+                    nb["stmts"].append({"k": "assign", "pl": copy.deepcopy(t["dest"]), "rv": {"k": "use", "op": {"k": "move", "pl": {"l": lmap(0), "p": []}}}, "span": t.get("span"), "exp": t.get("exp", ""), "ret_kind": ct2.get("ret_kind")})
                     if t["t"] is not None:
                         ct2 = {"k": "goto", "t": ("THREAD", ct2.get("ret_kind")), "span": ct.get("span"), "exp": ct.get("exp", ""), "inlined_return": crec["path"]}
                     else:
@@ -1017,21 +1197,131 @@ def inline_rec(prog, rec, done, stack):
                     tt["t"] = _thread_chain(rec, t["t"], set(), {t["dest"]["l"]}, kind)
                 else:
                     tt["t"] = t["t"]
+        # a parameter bound to `&mut place` / `&place` taken for this call: `(*param).x` in the copy is `place.x` —
+        # written out, so that what the helper stores through the reference is a definition of the caller's variable
+        unbound = set()
+        for i, a in enumerate(t["args"]):
+            tgt = _borrowed_place(blk, a)
+            if tgt is not None:
+                _subst_deref(rec["blocks"][boff:], lmap(i + 1), tgt)
+                if not _mentions_local(rec["blocks"][boff:], lmap(i + 1)):
+                    # the reference itself is used nowhere else: it does not exist any more
+                    unbound.add(i)
+                    _drop_borrow(rec, blk, a)
         # bind the parameters and jump into the copy
         for i, a in enumerate(t["args"]):
+            if i in unbound:
+                continue
             blk["stmts"].append({"k": "assign", "pl": {"l": lmap(i + 1), "p": []}, "rv": {"k": "use", "op": copy.deepcopy(a)}, "span": t.get("span"), "exp": t.get("exp", "")})
         blk["term"] = {"k": "goto", "t": boff, "span": t.get("span"), "exp": t.get("exp", ""), "inlined_call": crec["path"]}
         rec.setdefault("inlined", []).append(crec["path"])
         changed = True
         n_inl += 1
+    if n_inl:
+        # closures handed to the helpers that were just copied in; constants they return
+        devirtualise_closure_calls(prog, rec)
+        thread_const_flags(rec)
     if changed:
         rec["transformed"] = True
     return rec if changed else None
 
 
+def _borrowed_place(blk, op, depth=0):
+    """the place `p` when the operand is a temporary assigned `&p` / `&mut p` earlier in this block (and p is a
+    plain path from a local: fields only, no pointer followed), else None"""
+    if not op or op.get("k") not in ("move", "copy") or op["pl"]["p"] or depth > 3:
+        return None
+    l = op["pl"]["l"]
+    found = None
+    for st in blk["stmts"]:
+        if st["k"] == "assign" and st["pl"]["l"] == l:
+            found = st if not st["pl"]["p"] else None
+    if found is None:
+        return None
+    rv = found["rv"]
+    if rv["k"] == "use":
+        return _borrowed_place(blk, rv["op"], depth + 1)
+    if rv["k"] != "ref" or rv.get("bk") not in ("mut", "shared"):
+        return None
+    pl = rv["pl"]
+    if pl["p"] and pl["p"][0][0] == "d" and all(e[0] == "f" for e in pl["p"][1:]):
+        # a re-borrow `&mut *q`, `&mut (*q).f` of a reference that was itself taken here
+        inner = _borrowed_place(blk, {"k": "copy", "pl": {"l": pl["l"], "p": []}}, depth + 1)
+        if inner is None:
+            return None
+        return {"l": inner["l"], "p": inner["p"] + copy.deepcopy(pl["p"][1:])}
+    if all(e[0] == "f" for e in pl["p"]):
+        return copy.deepcopy(pl)
+    return None
+
+
+def _mentions_local(blocks, l, limit=1):
+    n = [0]
+
+    def walk(obj):
+        if n[0] >= limit:
+            return
+        if isinstance(obj, list):
+            for x in obj:
+                walk(x)
+        elif isinstance(obj, dict):
+            if "l" in obj and "p" in obj and isinstance(obj["l"], int) and isinstance(obj["p"], list):
+                if obj["l"] == l or any(isinstance(e, list) and e and e[0] == "i" and e[1] == l for e in obj["p"]):
+                    n[0] += 1
+                return
+            for v in obj.values():
+                walk(v)
+    for b in blocks:
+        walk(b["stmts"])
+        if b["term"] is not None:
+            walk(b["term"])
+    return n[0] >= limit
+
+
+def _drop_borrow(rec, blk, op, depth=0):
+    """remove `tmp = &mut place` (and the copies of tmp leading to the operand) when the call was its only use"""
+    if not op or op.get("k") not in ("move", "copy") or op["pl"]["p"] or depth > 3:
+        return
+    l = op["pl"]["l"]
+    # uses anywhere: the defining statement counts once, the call argument once
+    if _mentions_local(rec["blocks"], l, limit=3):
+        return
+    for i in range(len(blk["stmts"]) - 1, -1, -1):
+        st = blk["stmts"][i]
+        if st["k"] == "assign" and st["pl"]["l"] == l and not st["pl"]["p"]:
+            rv = st["rv"]
+            if rv["k"] == "ref":
+                del blk["stmts"][i]
+            elif rv["k"] == "use":
+                del blk["stmts"][i]
+                _drop_borrow(rec, blk, rv["op"], depth + 1)
+            return
+
+
+def _subst_deref(blocks, param, tgt):
+    def walk(obj):
+        if isinstance(obj, list):
+            for x in obj:
+                walk(x)
+        elif isinstance(obj, dict):
+            if "l" in obj and "p" in obj and isinstance(obj["l"], int) and isinstance(obj["p"], list):
+                if obj["l"] == param and obj["p"] and obj["p"][0][0] == "d":
+                    obj["p"] = copy.deepcopy(tgt["p"]) + obj["p"][1:]
+                    obj["l"] = tgt["l"]
+                return
+            for v in obj.values():
+                walk(v)
+    for b in blocks:
+        walk(b["stmts"])
+        if b["term"] is not None:
+            walk(b["term"])
+
+
 def desugar_only(prog, rec):
     rec = copy.deepcopy(rec)
     changed = desugar_combinators(prog, rec)
+    if changed:
+        thread_known_variants(rec)
     changed = desugar_internal_iteration(prog, rec) or changed
     changed = thread_const_flags(rec) or changed
     if changed:
@@ -1082,6 +1372,37 @@ def apply(prog):
             if b.path not in spliced and b.def_kind == "Closure" and any(b.path.startswith(sp + "::") for sp in spliced):
                 spliced.add(b.path)
                 more = True
+    # a private helper every call of which was replaced by a copy is not separate code either
+    inl = set()
+    for path, callees in replaced:
+        inl |= set(callees)
+    if inl:
+        still_called = set()
+        for b in prog.bodies.values():
+            if b.path in spliced:
+                continue
+            for bi, t in b.calls():
+                cb = prog.callee_body(t)
+                if cb is not None and cb.path in inl and b.root != cb.root:
+                    still_called.add(cb.path)
+        users = {}
+        for path, callees in replaced:
+            for c in callees:
+                users.setdefault(c, set()).add(prog.bodies[path].root)
+        for c in inl - still_called:
+            fam = prog.families.get(c, [])
+            roots = users.get(c, set())
+            kb = _async_body(prog, prog.bodies[c]) if c in prog.bodies else None
+            copied = {c} | ({kb.path} if kb is not None else set())
+            for b in fam:
+                if b.path in copied or b.path in spliced:
+                    spliced.add(b.path)
+                elif len(roots) == 1 and (b.coroutine or b.def_kind == "Closure"):
+                    # code written inside the helper (a closure, an async block) now belongs to the one function the helper was written out in
+                    r_ = next(iter(roots))
+                    b.root = r_
+                    prog.families.setdefault(r_, []).append(b)
+                # used from several functions: stays separate code under the helper's own name
     for sp in spliced:
         if sp in prog.bodies:
             prog.bodies[sp].spliced = True
